@@ -85,7 +85,47 @@ def _tile(blob, outs):
 
 
 def decode_one(target, blob):
-    return _tile(bytes(blob), _run(target, [bytes(blob)]))
+    return _walk([bytes(blob)], _run(target, [bytes(blob)]))[0]
+
+
+def _walk(blobs, outs, max_skip=64):
+    """Associate outputs with inputs by position in the concatenated stream.  llvm-mc decodes the
+    stream sequentially; after an invalid encoding it skips some bytes (reported on stderr only)
+    and continues.  Every output is placed at the first position >= the running position where
+    the stream equals the bytes it shows; bytes passed over are 'skipped'.  An input is decoded
+    iff outputs tile it exactly from its first to its last byte with nothing skipped and no
+    output straddling its borders.  (A text is a function of the bytes it covers, so placing an
+    output on equal bytes is always a correct decode of those bytes.)"""
+    stream = b"".join(blobs)
+    starts = []
+    pos = 0
+    for b in blobs:
+        starts.append(pos)
+        pos += len(b)
+    placed = {}  # start -> (text, length)
+    pos = 0
+    for text, enc in outs:
+        if not enc:
+            continue
+        p = pos
+        limit = min(len(stream), pos + max_skip)
+        while p <= limit and stream[p : p + len(enc)] != enc:
+            p += 1
+        if p > limit:
+            break  # lost: everything after stays undecoded
+        placed[p] = (text, len(enc))
+        pos = p + len(enc)
+    results = []
+    for a, b in zip(starts, blobs):
+        end = a + len(b)
+        p = a
+        res = []
+        while p < end and p in placed:
+            text, n = placed[p]
+            res.append((text, n))
+            p += n
+        results.append(res if (res and p == end) else None)
+    return results
 
 
 def decode(target, blobs, batch=4000):
@@ -93,28 +133,11 @@ def decode(target, blobs, batch=4000):
     blobs = [bytes(b) for b in blobs]
     results = [None] * len(blobs)
     todo = [i for i, b in enumerate(blobs) if b]
-    while todo:
-        chunk, todo = todo[:batch], todo[batch:]
-        outs = _run(target, [blobs[i] for i in chunk])
-        k = 0  # next output
-        for n, i in enumerate(chunk):
-            blob = blobs[i]
-            pos = 0
-            res = []
-            while pos < len(blob) and k < len(outs):
-                text, enc = outs[k]
-                if not enc or blob[pos : pos + len(enc)] != enc:
-                    break
-                res.append((text, len(enc)))
-                pos += len(enc)
-                k += 1
-            if pos == len(blob):
-                results[i] = res
-                continue
-            # anomaly: this input on its own, the rest of the chunk as a fresh stream
-            results[i] = decode_one(target, blob)
-            todo = chunk[n + 1 :] + todo
-            break
+    for start in range(0, len(todo), batch):
+        chunk = todo[start : start + batch]
+        data = [blobs[i] for i in chunk]
+        for i, r in zip(chunk, _walk(data, _run(target, data))):
+            results[i] = r
     return results
 
 
@@ -365,6 +388,12 @@ for _n in _RV_CSRS:
 _RV_REGS["mbadaddr"] = "csr:mtval"  # renamed in priv-1.10; same CSR number 0x343
 _RV_PCREL = re.compile(r"%[a-z_]+\(([A-Za-z_][A-Za-z_0-9]*)\)")
 _RV_SWAP = {"bgt": "blt", "ble": "bge", "bgtu": "bltu", "bleu": "bgeu"}
+_RV_RM = ("rne", "rtz", "rdn", "rup", "rmm", "dyn")
+# FMV.X.W / FMV.W.X were called FMV.X.S / FMV.S.X before version 2.2 of the F extension
+_RV_SYN = {"fmv.x.s": "fmv.x.w", "fmv.s.x": "fmv.w.x"}
+# instructions with a rounding-mode field; an omitted rm operand means dyn (F extension, 11.2)
+_RV_HAS_RM = ("fadd.s", "fsub.s", "fmul.s", "fdiv.s", "fsqrt.s", "fcvt.s.w", "fcvt.s.wu", "fcvt.w.s", "fcvt.wu.s",
+              "fmadd.s", "fmsub.s", "fnmadd.s", "fnmsub.s")
 _RV_RDCSR = {
     "rdcycle": "cycle", "rdcycleh": "cycleh", "rdtime": "time", "rdtimeh": "timeh",
     "rdinstret": "instret", "rdinstreth": "instreth",
@@ -372,8 +401,11 @@ _RV_RDCSR = {
 
 
 def _rv_common(mn, rest):
-    rest = _RV_PCREL.sub(lambda m: m.group(1), rest)
-    ops = _operands(rest, _RV_REGS, LABEL_NAMES, keep="()")
+    rest = _RV_PCREL.sub(lambda m: " " + m.group(1) + " ", rest)
+    ops = _operands(rest, _RV_REGS, LABEL_NAMES, keywords=_RV_RM, keep="()")
+    mn = _RV_SYN.get(mn, mn)
+    if mn == "c.nop" and len(ops) <= 1:  # C.NOP is C.ADDI x0, 0; with imm != 0 a HINT
+        mn, ops = "c.addi", [("r", "x0"), ops[0] if ops else ("i", 0)]
     return mn, ops
 
 
@@ -401,8 +433,21 @@ def _rv_ppci(text):
         return [("csrrs", (ops[0], ("r", "csr:" + _RV_RDCSR[mn]), x0))]
     if mn == "jalr" and kinds in ("rri", "rrL"):  # ppci prints rd,rs1,imm for the documented rd, imm(rs1)
         return [("jalr", (ops[0], ops[2], ("t", "("), ops[1], ("t", ")")))]
-    if mn in ("li", "la"):
+    if mn in ("li", "la") or (mn in ("lw", "lh", "lb", "lbu", "lhu", "sw", "sh", "sb") and kinds == "rL"):
         raise _Unknown("multi-instruction pseudo")
+    if mn.startswith("f.") and mn.endswith(".s"):
+        # ppci spells the F compares f.feq.s ...; FGT/FGE are the handbook pseudo-instructions
+        # fgt.s rd, rs, rt = flt.s rd, rt, rs ; fge.s rd, rs, rt = fle.s rd, rt, rs
+        inner = mn[2:]
+        if inner in ("fgt.s", "fge.s") and kinds == "rrr":
+            return [({"fgt.s": "flt.s", "fge.s": "fle.s"}[inner], (ops[0], ops[2], ops[1]))]
+        if inner in ("feq.s", "flt.s", "fle.s"):
+            return [(inner, tuple(ops))]
+        raise _Unknown("no such instruction in the manual: " + mn)
+    if mn in _RV_HAS_RM and not (ops and ops[-1][0] == "s"):
+        ops = list(ops) + [("s", "dyn")]
+    if mn in ("c.addi", "c.slli", "c.srli", "c.srai", "c.andi") and kinds == "rri" and ops[0] == ops[1]:
+        ops = [ops[0], ops[2]]  # printed with rd twice; the manual's form is rd, imm
     return [(mn, tuple(ops))]
 
 
@@ -467,7 +512,29 @@ def _arm_ppci(text):
     base, cond = _arm_cond(mn, _ARM_DP)
     if base in ("push", "pop") and ops and all(o[0] == "r" for o in ops):
         ops = [("set", frozenset(o[1] for o in ops))]  # printed without braces (C09-KF3)
+    base, ops = _arm_post(base, ops)
     return [(base + cond, tuple(ops))]
+
+
+def _arm_post(base, ops):
+    """Rewrites applied to both sides: immediates are 32-bit patterns; 'lsl #0' is no shift;
+    ADD/SUB Rd, PC, #imm is ADR Rd, label (A8.8.12); MOV with a shift is the shift mnemonic."""
+    ops = [("i", o[1] & 0xFFFFFFFF) if o[0] == "i" else o for o in ops]
+    if len(ops) >= 2 and ops[-2] == ("s", "lsl") and ops[-1] == ("i", 0):
+        ops = ops[:-2]
+    if base in ("add", "sub") and len(ops) == 3 and ops[1] == ("r", "r15") and ops[2][0] == "i":
+        base, ops = "adr", [ops[0], ("L",)]
+    if base == "adr" and len(ops) == 2 and ops[1][0] == "i":
+        ops = [ops[0], ("L",)]
+    return _arm_mov_shift(base, ops)
+
+
+def _arm_mov_shift(base, ops):
+    """MOV Rd, Rm, <shift> #n / Rs is the pre-UAL spelling of <shift> Rd, Rm, #n / Rs (ARM ARM
+    A8.8.105: the canonical form is the shift mnemonic)."""
+    if base == "mov" and len(ops) == 4 and ops[2][0] == "s" and ops[0][0] == ops[1][0] == "r":
+        return ops[2][1], [ops[0], ops[1], ops[3]]
+    return base, ops
 
 
 def _ror32(v, n):
@@ -492,6 +559,7 @@ def _arm_ref(texts):
         # pc-relative literal / adr: [pc, #imm]  ->  reference
         if base in ("ldr",) and len(ops) == 5 and ops[1] == ("t", "[") and ops[2] == ("r", "r15") and ops[3][0] == "i":
             ops = [ops[0], ("L",)]
+        base, ops = _arm_post(base, ops)
         out.append((base + cond, tuple(ops)))
     return out
 
@@ -515,6 +583,7 @@ def _thumb_ppci(text):
         ops = [ops[0], ops[1], ("i", 0)]
     if base in ("add", "sub") and len(ops) == 3 and ops[0] == ops[1] == ("r", "r13") and ops[2][0] == "i":
         ops = [ops[0], ops[2]]  # ADD SP, SP, #imm == ADD SP, #imm (T2)
+    ops = [("i", o[1] & 0xFFFFFFFF) if o[0] == "i" else o for o in ops]
     return [(base + cond + wide, tuple(ops))]
 
 
@@ -535,6 +604,7 @@ def _thumb_ref(texts, sizes):
             ops = [ops[0], ("L",)]
         if not wide and base == "b" and n == 4:
             wide = ".w"
+        ops = [("i", o[1] & 0xFFFFFFFF) if o[0] == "i" else o for o in ops]
         out.append((base + cond + wide, tuple(ops)))
     return out
 
@@ -639,6 +709,9 @@ def _x86_operand(p, side):
     p = p.strip()
     if side == "ref":
         p = _X86_PTR.sub("", p)
+        m = re.match(r"^(ds|es|ss|cs):(0x[0-9a-f]+|\d+)$", p)
+        if m:  # absolute address
+            return ("m", None, None, 1, _x86_num(m.group(2)) & 0xFFFFFFFFFFFFFFFF)
         p = re.sub(r"^(ds|es|ss|cs):", "", p)
     if p.startswith("*"):
         p = p[1:]
@@ -683,6 +756,8 @@ def _x86_ppci(text):
     ops = [_x86_operand(p, "ppci") for p in _x86_split(rest)]
     if mn in ("push", "pop") and ops and ops[0][0] == "r" and ops[0][1].startswith("xmm"):
         raise _Unknown("pseudo push/pop xmm")
+    if mn in ("shl", "shr", "sar", "rol", "ror", "sal") and len(ops) == 1:
+        ops.append(("i", 1))  # D0/D1 forms: shift by one, printed by ppci without the count
     return [_x86_finish(mn, ops)]
 
 
@@ -696,6 +771,12 @@ def _x86_ref(texts):
                 break
             t = t[m.end() :]
         mn, rest = _split_mnemonic(t)
+        if mn in ("movs", "stos", "lods", "scas", "cmps"):
+            m = re.search(r"\b(BYTE|WORD|DWORD|QWORD) PTR", rest)
+            if m is None:
+                raise _Unknown(t)
+            out.append((mn + {"BYTE": "b", "WORD": "w", "DWORD": "d", "QWORD": "q"}[m.group(1)], ()))
+            continue
         ops = [_x86_operand(p, "ref") for p in _x86_split(rest)]
         out.append(_x86_finish(mn, ops))
     return out
@@ -747,15 +828,16 @@ def norm_ref(target, decoded):
 
 
 def compare(a, b):
-    """None when the canonical forms agree, else a short description of the first difference.
+    """None when the canonical forms agree, else a structured difference:
+    ("count", n_a, n_b) | ("mnemonic", i, m_a, m_b) | ("shape", i) | ("operand", i, k, x, y).
     ("L",) matches any immediate/label; x86 ("mL",) matches any memory operand without base."""
     if len(a) != len(b):
-        return "instruction count %d vs %d" % (len(a), len(b))
-    for (ma, oa), (mb, ob) in zip(a, b):
+        return ("count", len(a), len(b))
+    for i, ((ma, oa), (mb, ob)) in enumerate(zip(a, b)):
         if ma != mb:
-            return "mnemonic %s vs %s" % (ma, mb)
+            return ("mnemonic", i, ma, mb)
         if len(oa) != len(ob):
-            return "shape"  # different operand count: syntax variants the normaliser does not bridge
+            return ("shape", i)  # different operand count: syntax variants the normaliser does not bridge
         for k, (x, y) in enumerate(zip(oa, ob)):
             if x == y:
                 continue
@@ -766,9 +848,19 @@ def compare(a, b):
             if x == ("mL",) and y[0] == "m" and y[1] is None and y[2] is None:
                 continue
             if x[0] != y[0]:
-                return "shape"
-            return "operand %d: %s vs %s" % (k, _show(x), _show(y))
+                return ("shape", i)
+            return ("operand", i, k, x, y)
     return None
+
+
+def describe_diff(d):
+    if d[0] == "count":
+        return "instruction count %d vs %d" % (d[1], d[2])
+    if d[0] == "mnemonic":
+        return "mnemonic %s vs %s" % (d[2], d[3])
+    if d[0] == "operand":
+        return "operand %d: %s vs %s" % (d[2], _show(d[3]), _show(d[4]))
+    return d[0]
 
 
 def _show(o):
